@@ -109,6 +109,45 @@ impl PartialEq for Variable {
     }
 }
 
+/// Orders two JSON numbers by the real numbers they denote.
+///
+/// Integers (i64/u64) are compared exactly, and a float is compared with an
+/// integer without rounding the integer to f64 first, so the order is total
+/// across the two representations (sorting relies on that).
+fn cmp_numbers(a: &Number, b: &Number) -> Ordering {
+    fn as_int(n: &Number) -> Option<i128> {
+        n.as_i64()
+            .map(i128::from)
+            .or_else(|| n.as_u64().map(i128::from))
+    }
+    fn cmp_int_float(int: i128, float: f64) -> Ordering {
+        // Every i64/u64 lies strictly within +-2^65.
+        const LIMIT: f64 = 36_893_488_147_419_103_232.0;
+        if float >= LIMIT {
+            return Ordering::Less;
+        }
+        if float <= -LIMIT {
+            return Ordering::Greater;
+        }
+        let whole = float.trunc();
+        match int.cmp(&(whole as i128)) {
+            Ordering::Equal => 0.0.partial_cmp(&(float - whole)).unwrap_or(Ordering::Equal),
+            other => other,
+        }
+    }
+    match (as_int(a), as_int(b)) {
+        (Some(x), Some(y)) => x.cmp(&y),
+        (Some(x), None) => b.as_f64().map_or(Ordering::Equal, |f| cmp_int_float(x, f)),
+        (None, Some(y)) => a
+            .as_f64()
+            .map_or(Ordering::Equal, |f| cmp_int_float(y, f).reverse()),
+        (None, None) => match (a.as_f64(), b.as_f64()) {
+            (Some(x), Some(y)) => x.partial_cmp(&y).unwrap_or(Ordering::Less),
+            _ => Ordering::Equal,
+        },
+    }
+}
+
 /// Implement PartialOrd so that Ast can be in the PartialOrd of Variable.
 impl PartialOrd<Variable> for Variable {
     fn partial_cmp(&self, other: &Variable) -> Option<Ordering> {
@@ -150,17 +189,8 @@ impl Ord for Variable {
                     }
                 }
                 JmespathType::Number => {
-                    // Integers are ordered exactly: as f64, neighbours above 2^53 collapse.
                     if let (Variable::Number(a), Variable::Number(b)) = (self, other) {
-                        if let (Some(a), Some(b)) = (a.as_i64(), b.as_i64()) {
-                            return a.cmp(&b);
-                        }
-                        if let (Some(a), Some(b)) = (a.as_u64(), b.as_u64()) {
-                            return a.cmp(&b);
-                        }
-                    }
-                    if let (Some(a), Some(b)) = (self.as_number(), other.as_number()) {
-                        a.partial_cmp(&b).unwrap_or(Ordering::Less)
+                        cmp_numbers(a, b)
                     } else {
                         Ordering::Equal
                     }
